@@ -165,52 +165,79 @@ Proof.
       destruct (sid =? j) eqn:Q; [apply N.eqb_eq in Q; congruence | reflexivity].
 Qed.
 
-Lemma apply_announce_fold : forall c sid ann y,
-  let y' := fold_left (apply_announce c sid) ann y in
+Lemma apply_announce_fold : forall (imp : import_policy) sid ann y,
+  let y' := fold_left (apply_announce imp sid) ann y in
   y_sess y' = y_sess y /\ y_asn y' = y_asn y /\ y_cid y' = y_cid y /\ y_cl4 y' = y_cl4 y /\ y_cl6 y' = y_cl6 y /\
   (forall j, sid <> j -> rib_of y' j = rib_of y j /\ adjin_of y' j = adjin_of y j).
 Proof.
-  intros c sid ann. induction ann as [|r ann IH]; intros y; cbn [fold_left].
+  intros imp sid ann. induction ann as [|r ann IH]; intros y; cbn [fold_left].
   - repeat split; reflexivity.
-  - specialize (IH (apply_announce c sid y r)). cbn zeta in IH.
+  - specialize (IH (apply_announce imp sid y r)). cbn zeta in IH.
     destruct IH as (A & B & C & D & E & F). cbn in A, B, C, D, E.
     repeat split; try assumption; destruct (F j H) as [F1 F2].
     + rewrite F1. unfold rib_of. cbn.
       assert (Hn : (sid =? j) = false) by (destruct (sid =? j) eqn:Q; [apply N.eqb_eq in Q; congruence | reflexivity]).
-      destruct (c_imp c); try rewrite filter_app; cbn; try rewrite Hn; try rewrite app_nil_r;
+      rewrite filter_app. unfold imported. destruct imp; cbn; try rewrite Hn; rewrite app_nil_r;
         apply rib_of_without_other; exact H.
     + rewrite F2. unfold adjin_of. cbn. rewrite alist_get_set.
       destruct (sid =? j) eqn:Q; [apply N.eqb_eq in Q; congruence | reflexivity].
 Qed.
 
-Lemma apply_update_frame : forall c sid ann wd y,
-  let y' := apply_update c sid ann wd y in
+Lemma apply_update_frame : forall c (imp : import_policy) sid ann wd y,
+  let y' := apply_update c imp sid ann wd y in
   y_sess y' = y_sess y /\ y_asn y' = y_asn y /\ y_cid y' = y_cid y /\ y_cl4 y' = y_cl4 y /\ y_cl6 y' = y_cl6 y /\
   (forall j, sid <> j -> rib_of y' j = rib_of y j /\ adjin_of y' j = adjin_of y j).
 Proof.
-  intros c sid ann wd y. unfold apply_update. destruct (c_v4 c); cbn [negb].
+  intros c imp sid ann wd y. unfold apply_update. destruct (c_v4 c); cbn [negb].
   - pose proof (apply_withdraw_fold sid wd y) as W. cbn zeta in W.
-    pose proof (apply_announce_fold c sid ann (fold_left (apply_withdraw sid) wd y)) as A. cbn zeta in A.
+    pose proof (apply_announce_fold imp sid ann (fold_left (apply_withdraw sid) wd y)) as A. cbn zeta in A.
     destruct W as (W1 & W2 & W3 & W4 & W5 & W6). destruct A as (A1 & A2 & A3 & A4 & A5 & A6).
     cbn zeta. repeat split; try congruence;
       destruct (A6 j H) as [P1 P2]; destruct (W6 j H) as [Q1 Q2]; congruence.
   - cbn zeta. repeat split; reflexivity.
 Qed.
 
-Lemma apply_poison_frame : forall c sid rid b v y,
-  let y' := apply_poison c sid rid b v y in
+Lemma apply_poison_frame : forall c (imp : import_policy) sid rid b v y,
+  let y' := apply_poison c imp sid rid b v y in
   y_sess y' = y_sess y /\ y_asn y' = y_asn y /\ y_cid y' = y_cid y /\ y_cl4 y' = y_cl4 y /\ y_cl6 y' = y_cl6 y /\
   (forall j, sid <> j -> rib_of y' j = rib_of y j /\ adjin_of y' j = adjin_of y j).
 Proof.
-  intros c sid rid b v y. unfold apply_poison. destruct (c_v4 c); cbn [negb]; cbn zeta.
+  intros c imp sid rid b v y. unfold apply_poison. destruct (c_v4 c); cbn [negb]; cbn zeta.
   - repeat split; try reflexivity.
     + unfold rib_of. cbn.
       assert (Hn : (sid =? j) = false) by (destruct (sid =? j) eqn:Q; [apply N.eqb_eq in Q; congruence | reflexivity]).
-      destruct (c_imp c); destruct (if b then 0 <? rc_count (y_asn y) v else 0 <? rc_count (y_cid y) v);
-        try rewrite filter_app; cbn; try rewrite Hn; try rewrite app_nil_r; apply rib_of_without_other; exact H.
+      rewrite filter_app. unfold imported.
+      destruct (if b then 0 <? rc_count (y_asn y) v else 0 <? rc_count (y_cid y) v); destruct imp;
+        cbn; try rewrite Hn; rewrite app_nil_r; apply rib_of_without_other; exact H.
     + unfold adjin_of. cbn. rewrite alist_get_set.
       destruct (sid =? j) eqn:Q; [apply N.eqb_eq in Q; congruence | reflexivity].
   - repeat split; reflexivity.
+Qed.
+
+Lemma reimported_other : forall (imp : import_policy) h sid j l, sid <> j ->
+  filter (fun x : rib_entry => match x with (s0, _, _) => s0 =? j end)
+    (flat_map (fun rid => if is_hidden h sid rid then [] else imported imp sid rid) l) = [].
+Proof.
+  intros imp h sid j l H.
+  assert (Hn : (sid =? j) = false) by (destruct (sid =? j) eqn:Q; [apply N.eqb_eq in Q; congruence | reflexivity]).
+  induction l as [|r l IH]; cbn [flat_map]; [reflexivity|].
+  rewrite filter_app, IH, app_nil_r. destruct (is_hidden h sid r); [reflexivity|].
+  unfold imported. destruct imp; cbn; try rewrite Hn; reflexivity.
+Qed.
+
+Lemma apply_reimport_frame : forall c (imp : import_policy) sid att y,
+  let y' := apply_reimport c imp sid att y in
+  y_sess y' = y_sess y /\ y_asn y' = y_asn y /\ y_cid y' = y_cid y /\ y_cl4 y' = y_cl4 y /\ y_cl6 y' = y_cl6 y /\
+  adjin_of y' sid = adjin_of y sid /\
+  (adjin_of y sid = [] -> rib_of y sid = [] -> rib_of y' sid = []) /\
+  (forall j, sid <> j -> rib_of y' j = rib_of y j /\ adjin_of y' j = adjin_of y j).
+Proof.
+  intros c imp sid att y. unfold apply_reimport. destruct (att && c_v4 c); cbn [negb]; cbn zeta.
+  - repeat split; try reflexivity.
+    + intros Ha _. unfold rib_of, adjin_of in *. cbn. rewrite Ha. cbn. rewrite app_nil_r. apply rib_of_without_sess_self.
+    + unfold rib_of. cbn. rewrite filter_app, (reimported_other imp _ sid j _ H), app_nil_r.
+      apply rib_of_without_sess_other. exact H.
+  - repeat split; try reflexivity. intros _ Hr. exact Hr.
 Qed.
 
 (* ---------------------------------------------------------------- well-formed action lists *)
@@ -237,7 +264,7 @@ Ltac prep_state att cn Hatt Hconn :=
 
 Lemma step_outs_ok : forall c s e, inv s -> outs_ok (s_att s) (snd (step c s e)) = true.
 Proof.
-  intros c [st att cn ng rt up] e [Hatt Hconn]. cbn in Hatt, Hconn.
+  intros c [st att cn ng rt up im] e [Hatt Hconn]. cbn in Hatt, Hconn.
   destruct st; prep_state att cn Hatt Hconn.
   all: destruct e; rdx; repeat (break_match; rdx); try discriminate; try reflexivity.
   all: try (exfalso; eapply frame_of_no_panic; eassumption).
@@ -248,43 +275,46 @@ Qed.
 Section Fold.
   Variables (c : cfg) (sid : N).
 
-  Lemma apply_outs_sess : forall os att y, y_sess (apply_outs c sid att os y) = y_sess y.
+  Lemma apply_outs_sess : forall os att imp y, y_sess (apply_outs c sid att imp os y) = y_sess y.
   Proof.
-    induction os as [|o os IH]; intros att y; cbn [apply_outs]; [reflexivity|].
+    induction os as [|o os IH]; intros att imp y; cbn [apply_outs]; [reflexivity|].
     destruct o; try apply IH.
     - rewrite IH. reflexivity.
     - rewrite IH. unfold apply_uninit. destruct att; reflexivity.
-    - rewrite IH. apply (apply_update_frame c sid ann wd y).
-    - rewrite IH. apply (apply_poison_frame c sid rid by_asn v y).
+    - rewrite IH. apply (apply_update_frame c imp sid ann wd y).
+    - rewrite IH. apply (apply_poison_frame c imp sid rid by_asn v y).
+    - rewrite IH. apply (apply_reimport_frame c p sid att y).
   Qed.
 
   (* other sessions' routes and Adj-RIB-Ins are untouched *)
-  Lemma apply_outs_other : forall os att y j, sid <> j ->
-    rib_of (apply_outs c sid att os y) j = rib_of y j /\
-    adjin_of (apply_outs c sid att os y) j = adjin_of y j.
+  Lemma apply_outs_other : forall os att imp y j, sid <> j ->
+    rib_of (apply_outs c sid att imp os y) j = rib_of y j /\
+    adjin_of (apply_outs c sid att imp os y) j = adjin_of y j.
   Proof.
-    induction os as [|o os IH]; intros att y j H; cbn [apply_outs]; [split; reflexivity|].
+    induction os as [|o os IH]; intros att imp y j H; cbn [apply_outs]; [split; reflexivity|].
     assert (Hn : (sid =? j) = false) by (destruct (sid =? j) eqn:Q; [apply N.eqb_eq in Q; congruence | reflexivity]).
     destruct o; try (apply IH; exact H).
-    - destruct (IH true (apply_init c sid y) j H) as [A B]. rewrite A, B. unfold rib_of, adjin_of. cbn.
+    - destruct (IH true imp (apply_init c sid y) j H) as [A B]. rewrite A, B. unfold rib_of, adjin_of. cbn.
       rewrite alist_get_set, Hn. split; reflexivity.
-    - destruct (IH false (apply_uninit c sid att y) j H) as [A B]. rewrite A, B.
+    - destruct (IH false imp (apply_uninit c sid att y) j H) as [A B]. rewrite A, B.
       unfold apply_uninit. destruct att; cbn [negb]; [|split; reflexivity].
       unfold rib_of, adjin_of. cbn. rewrite alist_get_set, Hn. split; [apply rib_of_without_sess_other; exact H | reflexivity].
-    - destruct (IH att (apply_update c sid ann wd y) j H) as [A B]. rewrite A, B.
-      apply (apply_update_frame c sid ann wd y). exact H.
-    - destruct (IH att (apply_poison c sid rid by_asn v y) j H) as [A B]. rewrite A, B.
-      apply (apply_poison_frame c sid rid by_asn v y). exact H.
+    - destruct (IH att imp (apply_update c imp sid ann wd y) j H) as [A B]. rewrite A, B.
+      apply (apply_update_frame c imp sid ann wd y). exact H.
+    - destruct (IH att imp (apply_poison c imp sid rid by_asn v y) j H) as [A B]. rewrite A, B.
+      apply (apply_poison_frame c imp sid rid by_asn v y). exact H.
+    - destruct (IH att p (apply_reimport c p sid att y) j H) as [A B]. rewrite A, B.
+      apply (apply_reimport_frame c p sid att y). exact H.
   Qed.
 
   (* the session's own contribution to RIB and Adj-RIB-In is empty whenever it ends detached *)
-  Lemma apply_outs_self_empty : forall os att y,
+  Lemma apply_outs_self_empty : forall os att imp y,
     outs_ok att os = true ->
     (att = false -> rib_of y sid = [] /\ adjin_of y sid = []) ->
     att_after att os = false ->
-    rib_of (apply_outs c sid att os y) sid = [] /\ adjin_of (apply_outs c sid att os y) sid = [].
+    rib_of (apply_outs c sid att imp os y) sid = [] /\ adjin_of (apply_outs c sid att imp os y) sid = [].
   Proof.
-    induction os as [|o os IH]; intros att y Hok HP Hend; cbn [apply_outs att_after outs_ok] in *.
+    induction os as [|o os IH]; intros att imp y Hok HP Hend; cbn [apply_outs att_after outs_ok] in *.
     - apply HP. exact Hend.
     - destruct o; try (apply IH; assumption).
       + apply andb_prop in Hok. destruct Hok as [_ Hok]. apply IH; [exact Hok | discriminate | exact Hend].
@@ -297,21 +327,26 @@ Section Fold.
         apply IH; [exact Hok | discriminate | exact Hend].
       + apply andb_prop in Hok. destruct Hok as [Ha Hok]. subst att.
         apply IH; [exact Hok | discriminate | exact Hend].
+      + apply IH; [exact Hok | | exact Hend]. intro Hf. subst att.
+        unfold apply_reimport. cbn. apply HP. reflexivity.
   Qed.
 
   (* without UPDATE processing an empty contribution stays empty (Init creates fresh Adj-RIBs) *)
-  Lemma apply_outs_stays_empty : forall os att y,
+  Lemma apply_outs_stays_empty : forall os att imp y,
     existsb is_update os = false ->
     rib_of y sid = [] /\ adjin_of y sid = [] ->
-    rib_of (apply_outs c sid att os y) sid = [] /\ adjin_of (apply_outs c sid att os y) sid = [].
+    rib_of (apply_outs c sid att imp os y) sid = [] /\ adjin_of (apply_outs c sid att imp os y) sid = [].
   Proof.
-    induction os as [|o os IH]; intros att y Hno HP; cbn [apply_outs existsb] in *; [exact HP|].
+    induction os as [|o os IH]; intros att imp y Hno HP; cbn [apply_outs existsb] in *; [exact HP|].
     destruct o; cbn [is_update orb] in Hno; try (apply IH; assumption); try discriminate.
     - apply IH; [exact Hno|]. destruct HP as [P1 P2]. unfold rib_of, adjin_of in *. cbn.
       rewrite alist_get_set, N.eqb_refl. split; [exact P1 | reflexivity].
     - apply IH; [exact Hno|]. unfold apply_uninit. destruct att; cbn [negb]; [|exact HP].
       unfold rib_of, adjin_of. cbn. rewrite alist_get_set, N.eqb_refl.
       split; [apply rib_of_without_sess_self | reflexivity].
+    - apply IH; [exact Hno|]. destruct HP as [P1 P2].
+      destruct (apply_reimport_frame c p sid att y) as (_ & _ & _ & _ & _ & A & B & _).
+      split; [apply B; assumption | rewrite A; exact P2].
   Qed.
 
   Definition g_asn (a : N) (b : bool) : N := if b && (c_las c =? a) then nfamN c else 0.
@@ -320,19 +355,19 @@ Section Fold.
   Definition g_cl6 (b : bool) : N := if b && c_v6 c then 1 else 0.
 
   (* refcounts and client counts: whatever the other sessions hold (R) plus this session's share *)
-  Lemma apply_outs_counts : forall os att y a Ra Rc R4 R6,
+  Lemma apply_outs_counts : forall os att imp y a Ra Rc R4 R6,
     outs_ok att os = true ->
     rc_count (y_asn y) a = Ra + g_asn a att ->
     rc_count (y_cid y) a = Rc + g_cid a att ->
     y_cl4 y = R4 + g_cl4 att ->
     y_cl6 y = R6 + g_cl6 att ->
-    let y' := apply_outs c sid att os y in
+    let y' := apply_outs c sid att imp os y in
     rc_count (y_asn y') a = Ra + g_asn a (att_after att os) /\
     rc_count (y_cid y') a = Rc + g_cid a (att_after att os) /\
     y_cl4 y' = R4 + g_cl4 (att_after att os) /\
     y_cl6 y' = R6 + g_cl6 (att_after att os).
   Proof.
-    induction os as [|o os IH]; intros att y a Ra Rc R4 R6 Hok Ha Hc H4 H6;
+    induction os as [|o os IH]; intros att imp y a Ra Rc R4 R6 Hok Ha Hc H4 H6;
       cbn [apply_outs att_after outs_ok] in *.
     - cbn zeta. repeat split; assumption.
     - destruct o; try (apply IH; assumption).
@@ -356,11 +391,14 @@ Section Fold.
         * rewrite H6. unfold g_cl6. cbn [andb]. destruct (c_v6 c); lia.
       + (* ProcessedUpdate *)
         apply andb_prop in Hok. destruct Hok as [_ Hok].
-        destruct (apply_update_frame c sid ann wd y) as (_ & E1 & E2 & E3 & E4 & _).
+        destruct (apply_update_frame c imp sid ann wd y) as (_ & E1 & E2 & E3 & E4 & _).
         apply IH; [exact Hok | rewrite E1 | rewrite E2 | rewrite E3 | rewrite E4]; assumption.
       + (* ProcessedPoison *)
         apply andb_prop in Hok. destruct Hok as [_ Hok].
-        destruct (apply_poison_frame c sid rid by_asn v y) as (_ & E1 & E2 & E3 & E4 & _).
+        destruct (apply_poison_frame c imp sid rid by_asn v y) as (_ & E1 & E2 & E3 & E4 & _).
+        apply IH; [exact Hok | rewrite E1 | rewrite E2 | rewrite E3 | rewrite E4]; assumption.
+      + (* ReplacedImport *)
+        destruct (apply_reimport_frame c p sid att y) as (_ & E1 & E2 & E3 & E4 & _).
         apply IH; [exact Hok | rewrite E1 | rewrite E2 | rewrite E3 | rewrite E4]; assumption.
   Qed.
 End Fold.
@@ -412,7 +450,7 @@ Proof.
   destruct (step c s e) as [s' os] eqn:Hstep. cbn [fst snd] in *.
   pose proof (sp_att_by_actions _ _ _ Hsp) as Hatt'. cbn in Hatt'.
   set (sid := N.of_nat i) in *.
-  set (y1 := apply_outs c sid (s_att s) os y) in *.
+  set (y1 := apply_outs c sid (s_att s) (s_imp s) os y) in *.
   assert (Hsess1 : y_sess y1 = y_sess y) by apply apply_outs_sess.
   cbn [fst].
   constructor; cbn [y_sess y_rib y_adjin y_asn y_cid y_cl4 y_cl6]; rewrite ?Hsess1.
@@ -428,12 +466,12 @@ Proof.
       apply apply_outs_self_empty; [exact Hok | | rewrite <- Hatt'; exact Hdet].
       intro Hd. eapply si_empty; eassumption.
     + rewrite (nth_set_other _ _ _ _ E) in H.
-      destruct (apply_outs_other c sid os (s_att s) y (N.of_nat j) (of_nat_neq _ _ E)) as [A B].
+      destruct (apply_outs_other c sid os (s_att s) (s_imp s) y (N.of_nat j) (of_nat_neq _ _ E)) as [A B].
       fold y1 in A, B. rewrite A, B. eapply si_empty; eassumption.
   - intro a.
     rewrite (total_set (asn_c a) _ _ _ _ (c, s') Hn). cbn [fst snd].
     pose proof (total_split (asn_c a) _ _ _ _ Hn) as Hs.
-    destruct (apply_outs_counts c sid os (s_att s) y a (total_but (asn_c a) (y_sess y) i)
+    destruct (apply_outs_counts c sid os (s_att s) (s_imp s) y a (total_but (asn_c a) (y_sess y) i)
                 (total_but (cid_c a) (y_sess y) i) (total_but cl4_c (y_sess y) i) (total_but cl6_c (y_sess y) i) Hok)
       as (A & _ & _ & _).
     + rewrite (si_asn y Hy a), Hs. reflexivity.
@@ -443,7 +481,7 @@ Proof.
     + fold y1 in A. rewrite A, <- Hatt'. reflexivity.
   - intro a.
     rewrite (total_set (cid_c a) _ _ _ _ (c, s') Hn). cbn [fst snd].
-    destruct (apply_outs_counts c sid os (s_att s) y a (total_but (asn_c a) (y_sess y) i)
+    destruct (apply_outs_counts c sid os (s_att s) (s_imp s) y a (total_but (asn_c a) (y_sess y) i)
                 (total_but (cid_c a) (y_sess y) i) (total_but cl4_c (y_sess y) i) (total_but cl6_c (y_sess y) i) Hok)
       as (_ & A & _ & _).
     + rewrite (si_asn y Hy a), (total_split (asn_c a) _ _ _ _ Hn). reflexivity.
@@ -452,7 +490,7 @@ Proof.
     + rewrite (si_cl6 y Hy), (total_split cl6_c _ _ _ _ Hn). reflexivity.
     + fold y1 in A. rewrite A, <- Hatt'. reflexivity.
   - rewrite (total_set cl4_c _ _ _ _ (c, s') Hn). cbn [fst snd].
-    destruct (apply_outs_counts c sid os (s_att s) y 0 (total_but (asn_c 0) (y_sess y) i)
+    destruct (apply_outs_counts c sid os (s_att s) (s_imp s) y 0 (total_but (asn_c 0) (y_sess y) i)
                 (total_but (cid_c 0) (y_sess y) i) (total_but cl4_c (y_sess y) i) (total_but cl6_c (y_sess y) i) Hok)
       as (_ & _ & A & _).
     + rewrite (si_asn y Hy 0), (total_split (asn_c 0) _ _ _ _ Hn). reflexivity.
@@ -461,7 +499,7 @@ Proof.
     + rewrite (si_cl6 y Hy), (total_split cl6_c _ _ _ _ Hn). reflexivity.
     + fold y1 in A. rewrite A, <- Hatt'. reflexivity.
   - rewrite (total_set cl6_c _ _ _ _ (c, s') Hn). cbn [fst snd].
-    destruct (apply_outs_counts c sid os (s_att s) y 0 (total_but (asn_c 0) (y_sess y) i)
+    destruct (apply_outs_counts c sid os (s_att s) (s_imp s) y 0 (total_but (asn_c 0) (y_sess y) i)
                 (total_but (cid_c 0) (y_sess y) i) (total_but cl4_c (y_sess y) i) (total_but cl6_c (y_sess y) i) Hok)
       as (_ & _ & _ & A).
     + rewrite (si_asn y Hy 0), (total_split (asn_c 0) _ _ _ _ Hn). reflexivity.
@@ -538,7 +576,7 @@ Qed.
 Lemma step_init_fresh : forall c s e, inv s ->
   In Init (snd (step c s e)) -> s_att s = false /\ existsb is_update (snd (step c s e)) = false.
 Proof.
-  intros c [st att cn ng rt up] e [Hatt Hconn]. cbn in Hatt, Hconn.
+  intros c [st att cn ng rt up im] e [Hatt Hconn]. cbn in Hatt, Hconn.
   destruct st; prep_state att cn Hatt Hconn.
   all: destruct e; rdx; repeat (break_match; rdx); try discriminate.
   all: try (exfalso; eapply frame_of_no_panic; eassumption).
@@ -559,8 +597,8 @@ Proof.
   destruct (step c s e) as [s' os] eqn:Hstep. cbn [fst snd] in *. intro HInit.
   destruct (Hfresh HInit) as [Hdet Hnoupd].
   unfold rib_of, adjin_of. cbn [y_rib y_adjin].
-  change (rib_of (apply_outs c (N.of_nat i) (s_att s) os y) (N.of_nat i) = [] /\
-          adjin_of (apply_outs c (N.of_nat i) (s_att s) os y) (N.of_nat i) = []).
+  change (rib_of (apply_outs c (N.of_nat i) (s_att s) (s_imp s) os y) (N.of_nat i) = [] /\
+          adjin_of (apply_outs c (N.of_nat i) (s_att s) (s_imp s) os y) (N.of_nat i) = []).
   apply apply_outs_stays_empty; [exact Hnoupd|].
   eapply si_empty; eassumption.
 Qed.
@@ -583,4 +621,29 @@ Proof.
   pose proof (nfamN_pos c Hf) as Hp. split.
   - rewrite (si_asn _ Hy), (total_split _ _ _ _ _ Hn). unfold asn_c. rewrite Ha, N.eqb_refl. cbn [andb]. lia.
   - intro Hr. rewrite (si_cid _ Hy), (total_split _ _ _ _ _ Hn). unfold cid_c. rewrite Ha, Hr, N.eqb_refl. cbn [andb]. lia.
+Qed.
+
+(* Replacing the import policy of an attached session re-derives what the Loc-RIB holds of it from its
+   Adj-RIB-In: whatever the policy was when the session came up (reject-all included), the eligible
+   paths learned so far are in the Loc-RIB as the new policy presents them. *)
+Lemma reimported_self : forall (imp : import_policy) h sid l,
+  filter (fun x : rib_entry => match x with (s0, _, _) => s0 =? sid end)
+    (flat_map (fun rid => if is_hidden h sid rid then [] else imported imp sid rid) l) =
+  flat_map (fun rid => if is_hidden h sid rid then [] else imported imp sid rid) l.
+Proof.
+  intros imp h sid l. induction l as [|r l IH]; cbn [flat_map]; [reflexivity|].
+  rewrite filter_app, IH. destruct (is_hidden h sid r); [reflexivity|].
+  unfold imported. destruct imp; cbn; rewrite ?N.eqb_refl; reflexivity.
+Qed.
+
+Theorem replacement_reattaches : forall y i c s p,
+  nth_sess (y_sess y) i = Some (c, s) -> s_st s <> Ceased -> s_att s = true -> c_v4 c = true ->
+  rib_of (fst (sys_step y i (EReplaceImport p))) (N.of_nat i) =
+  flat_map (fun rid => if is_hidden (y_hidden y) (N.of_nat i) rid then [] else imported p (N.of_nat i) rid)
+           (adjin_of y (N.of_nat i)).
+Proof.
+  intros y i c s p Hn Hc Ha H4. unfold sys_step. rewrite Hn.
+  unfold step. destruct (s_st s) eqn:E; try (exfalso; apply Hc; reflexivity);
+    cbn [fst snd apply_outs]; unfold apply_reimport; rewrite Ha, H4; cbn [andb negb];
+    unfold rib_of, adjin_of; cbn [y_rib]; rewrite filter_app, rib_of_without_sess_self, reimported_self; reflexivity.
 Qed.
